@@ -595,7 +595,7 @@ pub fn exec_common<E: Elem, V: VecApi<E>>(ctx: &mut Ctx, v: &mut V, m: &mut Vec<
                 0 => 0,
                 1 => usize::MAX,
                 2 => usize::MAX / 2,
-                3 => isize::MAX as usize / std::mem::size_of::<E>().max(1),
+                3 => (isize::MAX as usize / std::mem::size_of::<E>().max(1)).saturating_sub(len + (op.a[0] / 8) as usize % 3),
                 _ => (op.a[0] / 8) as usize % 64,
             };
             let try_ = try_forced || op.a[1] & 1 == 1 || n > 4096;
